@@ -27,7 +27,11 @@ _known = None
 
 PURE_CALLS = {"size", "length", "empty", "begin", "end", "cbegin", "cend", "rbegin", "rend", "crbegin", "crend", "data", "front", "back",
               "operator[]", "operator*", "operator->", "operator+", "operator-", "min", "max", "get", "first", "second", "active", "shadow",
-              "flipped", "prev", "next", "distance", "key", "top", "load"}
+              "flipped", "prev", "next", "distance", "key", "top", "load",
+              # pure integer helpers of tlx/math
+              "round_up_to_power_of_two", "round_down_to_power_of_two", "div_ceil", "integer_log2_floor", "integer_log2_ceil", "is_power_of_two",
+              "abs_diff", "clz", "ctz", "popcount", "ffs", "rol32", "rol64", "ror32", "ror64", "bswap16", "bswap32", "bswap64", "sgn", "round_up",
+              "to_lower", "to_upper", "iterpair_size", "not_present", "parent", "left", "right"}
 
 
 def known():
@@ -40,6 +44,11 @@ def known():
         else:
             _known = False
     return _known
+
+
+PURE_VALUE = {"min", "max", "round_up_to_power_of_two", "round_down_to_power_of_two", "div_ceil", "integer_log2_floor", "integer_log2_ceil",
+              "is_power_of_two", "abs_diff", "clz", "ctz", "popcount", "ffs", "rol32", "rol64", "ror32", "ror64", "bswap16", "bswap32", "bswap64",
+              "sgn", "round_up", "to_lower", "to_upper"}     # results depend on the argument values only
 
 
 class Fail(Exception):
@@ -455,9 +464,10 @@ class Rewriter:
         for d, v in decls.items():
             ty = (v.get("ty") or "")
             is_alias = ty.rstrip().endswith("&")
+            is_const = ty.startswith("const ") or ty.rstrip().endswith(" const") or "*const" in ty.replace(" ", "")
             if d in writes and not is_alias:
                 continue
-            if d in addr and not is_alias:
+            if d in addr and not is_alias and not is_const:
                 continue
             init = kids(v)[0]
             if not self.side_effect_free(init):
@@ -520,7 +530,8 @@ class Rewriter:
             calls = [y for y in walk(body) if "callee" in y and y["k"] in ("CallExpr", "CXXMemberCallExpr") and y["callee"]["name"] not in PURE_CALLS]
             fields = any(isinstance(o, tuple) for o in ops)
             reads_mem = any(y["k"] in ("MemberExpr", "ArraySubscriptExpr") or (y["k"] == "UnaryOperator" and y.get("op") == "*") or
-                            (y["k"] == "CXXOperatorCallExpr" and y.get("op") in ("[]", "*", "->")) or "callee" in y for y in walk(init))
+                            (y["k"] == "CXXOperatorCallExpr" and y.get("op") in ("[]", "*", "->")) or
+                            ("callee" in y and y["callee"]["name"] not in PURE_VALUE) for y in walk(init))
             for o in list(ops) + ["?"] + (["?mem"] if reads_mem else []):
                 for w in writes.get(o, []):
                     pw = g.pos_deep(w)
